@@ -28,10 +28,11 @@ def run(ctx: Ctx) -> None:
     if ctx.tier == "thorough":
         ctx.leanchecker(["O2P.Props.C05"])
     quick = ctx.tier == "quick"
-    cases = lc.build_cases(ctx, 250 if quick else 3000, [4, 6, 8, 10, 12], with_corpus=True, multi_start=True)
+    cases = lc.build_cases(ctx, 250 if quick else 3000, [4, 6, 8, 10, 12], with_corpus=True, multi_start=True, f_adjacent=True)
     ctx.cov["rule"] = (
-        "definitions as in C01 plus definitions that open with an AND/OR fork (several start events); loops that end in "
-        "a fork occur among the random ones. The emitted text must parse (Lean parser = the dialect's grammar) and its "
+        "definitions as in C01 plus definitions that open with an AND/OR fork (several start events) plus 64 F-adjacent "
+        "definitions (nested loop directly followed by a choice between leaving the outer loop and carrying on, break "
+        "branch with or without an event of its own); loops that end in a fork occur among the random ones. The emitted text must parse (Lean parser = the dialect's grammar) and its "
         "event names must be exactly the input's event types. non-trivial: the definition has a loop, a fork nested in "
         "a fork, or several start events"
     )
